@@ -73,6 +73,16 @@ public:
     return rules;
   }
   
+  /// Look up the given rule name in this scope and then in the enclosing
+  /// scopes, returning null if not found.
+  Rule* lookupRule(StringRef name) const {
+    auto it = rules.find(name);
+    if (it != rules.end())
+      return it->second;
+
+    return parent ? parent->lookupRule(name) : nullptr;
+  }
+
   /// Insert a binding into the set.
   void insertBinding(StringRef name, StringRef value) {
     entries[name] = value;
